@@ -137,7 +137,12 @@ Section Ser.
     if negb (N.land (fn_mode n) c_S_IFMT =? payload_fmt (fn_payload n)) then Crash else
     do (w', kind) <-
       match fn_payload n with
-      | PDir par ch => write_dir_entries t (s_refs st) (s_dw st) par ch
+      | PDir par ch =>
+          (* inode = write_dir_entries(...); ret = SQFS_ERROR_INTERNAL; if (inode == NULL) return ret; *)
+          match write_dir_entries t (s_refs st) (s_dw st) par ch with
+          | Err _ => Err c_SQFS_ERROR_INTERNAL
+          | r => r
+          end
       | PFile b => Ok (s_dw st, KFile b)
       | PSlink tg => Ok (s_dw st, KSlink tg)
       | PDev c d => Ok (s_dw st, KDev c d)
